@@ -80,7 +80,7 @@ TExpandSkip == /\ IsE(l, "Expand") /\ Skipped(Tr[l])
 
 TExpand == /\ IsE(l, "Expand") /\ ~Skipped(Tr[l])
            /\ Texts(Ref(Tr[l]).ts) = Texts(Impl(Tr[l]).ts)
-           /\ out' = Append(out, Ref(Tr[l]))
+           /\ out' = Append(out, OutLine(defs, Ref(Tr[l])))
            /\ l' = l + 1 /\ ncmp' = ncmp + 1 /\ UNCHANGED <<defs, pushStack, opq, nskip>>
 
 TForeign == /\ l <= N /\ Tr[l].e \notin {"Reset", "Trim", "Define", "Undef", "Push", "Pop", "Expand"}
